@@ -379,7 +379,9 @@ class IrToPythonCompiler:
         phis = target.phis
         if phis:
             phi_names = ", ".join(p.name for p in phis)
-            value_names = ", ".join(p.inputs[block].name for p in phis)
+            value_names = ", ".join(
+                self.fetch_value(p.inputs[block]) for p in phis
+            )
             self.emit(f"{phi_names} = {value_names}")
 
     def reset_stack(self):
@@ -526,7 +528,7 @@ class IrToPythonCompiler:
             self.emit(f"{ins.name} = rt.load_{ins.ty.name}({address})")
 
     def gen_store(self, ins):
-        address = ins.address.name
+        address = self.fetch_value(ins.address)
         if isinstance(ins.value.ty, ir.BlobDataTyp):
             self.emit(
                 f"rt.write_mem({address}, {ins.value.ty.size}, "
